@@ -16,6 +16,22 @@ CLAIMED = {
    text='Theorems for every integer d (unbounded Z, by induction over the sorted threshold list): the model of point_difference_to_imps equals the official IMP scale, lies in [-24,24], is monotone and odd, is 0 below 20 and 24 from 4000, and score_to_imp a b is the scale at a+b. The threshold tuple is regenerated from score.py on every run and proved equal to the official scale; the model is tied to the code by a differential run (window around 0, every threshold +-1/9/10/11, magnitudes to 1e30) whose comparison is evaluated in Coq.',
    design='4/C16', technique='Coq proof by induction (all integers); translator for the threshold tuple; differential correspondence evaluated by vm_compute',
    note='Trusted: Coq kernel + vm_compute; translator for _IMPS_LIST; drivers/imps.py; Spec/Duplicate.v official_imp_bounds is the statement of the official scale. The while-loop is modelled by a 24-fuel scan (the loop bound in the code). Print Assumptions: closed under the global context.'),
+ 'C04': dict(
+   text='Theorems about the Coq model of PlayingPhase for every contract and EVERY list of cards (any length, repeats and revokes included), by induction over the card list: the winner computation satisfies the declarative law of Spec/PlayLaws.v (highest trump, else highest of the suit led; unique), opening leader/dummy, turn = leader rotated by cards on the table, each 4th card records (actual leader, the four cards), winner leads, winner\'s side +1 and the other unchanged, the record is the cards in order, 13 tricks and done exactly at 52. Model tied to the code by a differential run (bare env with arbitrary lists, boards with hands, calc_highest) whose comparison and whose independent reference (Spec/PlayOracle.v) are evaluated in Coq.',
+   design='4/C04', technique='Coq proof by induction over arbitrary card lists + invariant; differential correspondence and Spec oracle evaluated by vm_compute',
+   note='Trusted: Coq kernel + vm_compute; drivers/play.py; Python set/list/enum semantics modelled. Print Assumptions: closed under the global context.'),
+ 'C05': dict(
+   text='Theorems for every disjoint deal and every list of (card, seat) attempts: a play is accepted iff the seat is on turn and holds the card, a refused play returns the same state, an accepted play removes exactly that card from exactly that hand; invariant by induction over the attempts: remaining hands + accepted plays partition the deal, hands stay disjoint and duplicate-free, no card is played twice, used_cards = the accepted cards, all hands empty after 52 accepted plays. Tie: boards with wrong-seat / foreign / replayed attempts injected, snapshot before/after every refusal, compared with the model and with the independent reference in Coq; the four observer replicas on the same boards.',
+   design='4/C05', technique='Coq proof: invariant by induction over arbitrary operation lists; differential correspondence and Spec oracle evaluated by vm_compute',
+   note='Trusted: as C04. Sets of cards are modelled as lists with membership semantics (statements are pointwise, no functional extensionality). Print Assumptions: closed.'),
+ 'C06': dict(
+   text='Theorems for every hand (any list of cards), every led card or none, every state: membership in the model of available_cards is exactly the follow-suit rule of Spec/PlayLaws.v (whole hand when leading or void, else exactly the cards of the suit led), never empty for a non-empty hand, a subset of the hand, current_available_cards = available w.r.t. the first card of the trick, and random.choice modelled as an arbitrary index always lands in the set. Tie: static hands of every size against led cards, every state of generated boards for the full-information env, the observer\'s own hand and declarer\'s dummy hand, and RandomPlay.play at every state; compared with model and Spec in Coq.',
+   design='4/C06', technique='Coq proof (all hands, all led cards); differential correspondence and Spec oracle evaluated by vm_compute',
+   note='Trusted: as C04; random.choice(list(set)) modelled as "some index". Print Assumptions: closed.'),
+ 'C11': dict(
+   text='(a) In process: theorem C11_observer_agrees - for every disjoint deal, contract, observer seat and every sequence of plays the full-information model accepts, the observer model accepts every step and its public state (contract data, leader, turn, trick, trick number, history, counts) equals the full state, its own and dummy\'s remaining cards equal the true hands; proved as a step-wise simulation. Tie: four ObservedPlayingPhase replicas fed every accepted play of generated boards, compared in Coq with model and reference. (b) Over the wire: the bundled Client in controlled sessions (see C08/C10 machinery) - replicas of auction and play compared at the end of each board.',
+   design='4/C11', technique='Coq proof: simulation relation by induction; differential correspondence evaluated by vm_compute; controlled-scheduler sessions for the network part',
+   note='Trusted: as C04; part (b) additionally the controlled scheduler and fake sockets. Print Assumptions: closed.'),
 }
 
 def main():
